@@ -887,4 +887,29 @@ static void body()
     vrt::alloc::check_pairing("conv");
 }
 
+#ifdef VRT_FUZZ
+// libFuzzer front end (thorough tier of C02/C03): first byte selects the source encoding,
+// the rest are its code units; the input goes through the same per-input monitors as the
+// generated ones (run8/run16/run32: every route, every mode, reference comparison, ASan).
+static void vrt_fuzz_one(const uint8_t *d, size_t n)
+{
+    PROP = vrt::is_prop("C03") ? "C03" : "C02";
+    if (n == 0) return;
+    const unsigned sel = d[0] % 3;
+    ++d; --n;
+    if (sel == 0) {
+        run8(S(reinterpret_cast<const char *>(d), n), true);
+    } else if (sel == 1) {
+        S16 s(n / 2, u'\0');
+        if (!s.empty()) memcpy(&s[0], d, s.size() * 2);
+        run16(s, true);
+    } else {
+        S32 s(n / 4, U'\0');
+        if (!s.empty()) memcpy(&s[0], d, s.size() * 4);
+        run32(s, true);
+    }
+    vrt::count("fuzz.inputs");
+}
+#endif
+
 VRT_MAIN(body)
